@@ -229,3 +229,48 @@ pub fn pf_haystack(
     }
     h
 }
+
+/// Needles for the prefilter-history family: > 32 bytes (Two-Way with a
+/// prefilter), with rare bytes.
+pub fn pf_needles() -> Vec<Vec<u8>> {
+    let mut v = vec![];
+    for &l in &[33usize, 40, 65] {
+        let common: Vec<u8> = b"e ".iter().copied().cycle().take(l).collect();
+        let mut a = common.clone();
+        a[0] = b'z';
+        a[l - 1] = b'q';
+        v.push(a);
+        let mut b = common.clone();
+        b[l / 2] = b'z';
+        b[l / 2 + 1] = b'q';
+        v.push(b);
+        // periodic needle with rare bytes (small-period Two-Way branch)
+        let c: Vec<u8> = b"zqee".iter().copied().cycle().take(l).collect();
+        v.push(c);
+    }
+    v
+}
+
+/// The PF grid for a needle whose candidate pair is (i1, i2): candidate-free
+/// prefix s, d false candidates at gap g, then a true match at distance t (or
+/// none), followed by a second, shorter run of candidates and a second match.
+pub fn pf_haystacks(needle: &[u8], i1: usize, i2: usize, thorough: bool) -> Vec<Vec<u8>> {
+    let mut out = vec![];
+    let prefixes: &[usize] = if thorough { &[0, 100, 400, 1000, 20000] } else { &[0, 100, 1000] };
+    let ds: &[usize] = if thorough { &[0, 10, 48, 49, 50, 51, 52, 60, 70] } else { &[0, 49, 50, 51, 70] };
+    let gs: Vec<usize> = if thorough { (1..=12).collect() } else { vec![1, 2, 5, 7, 8, 9, 12] };
+    let ts: &[Option<usize>] = if thorough { &[None, Some(0), Some(1), Some(7), Some(40)] } else { &[None, Some(0), Some(7)] };
+    for &s in prefixes {
+        for &d in ds {
+            for &g in &gs {
+                for &t in ts {
+                    let mut h = pf_haystack(needle, i1, i2, b'.', s, d, g, t);
+                    let tail = pf_haystack(needle, i1, i2, b'.', 3, d / 2, g, Some(2));
+                    h.extend_from_slice(&tail);
+                    out.push(h);
+                }
+            }
+        }
+    }
+    out
+}
